@@ -136,6 +136,54 @@ Theorem C20_new_nodes : forall n0 ls k,
     forall n, In n (nodes (wrun (winit n0) ls)) -> In n t \/ born (wrun (winit n0) ls) n = Some k.
 Proof. exact new_nodes. Qed.
 
+(* ---- overlapping calls ------------------------------------------------------------------------------ *)
+
+(* different names: the acknowledged form of the guarantee FAILS (documented: "call only one
+   use_keyspace at a time"): both calls answered Ok by an honest server, the live pool connection ends
+   in the keyspace of the first call, the pool's current keyspace is the second *)
+Theorem C20_overlap_refuted :
+  exists ls s c ka kb na,
+    hrun (init None) ls = Some s /\ ka <> kb /\ cur s = Some kb /\
+    In (0, PAOk) (log s) /\ In (1, PAOk) (log s) /\ pending s = [] /\
+    ph s c = InPool /\ alive s c = true /\ wire s c = [] /\
+    acked s c = Some na /\ na = canon ka /\ matchesb s c kb = false.
+Proof. exact overlap_refuted. Qed.
+
+(* what IS guaranteed for every interleaving of calls (overlapping or not, same or different names)
+   with an honest server: a connection is only ever acknowledged in the canonical keyspace of a USE
+   that was sent on it - i.e. of one of the calls (or of the keyspace it was set up with) *)
+Theorem C20_overlap_membership : forall k0 ls s c n,
+  hrun (init k0) ls = Some s -> acked s c = Some n -> exists k, In k (told s c) /\ n = canon k.
+Proof. exact overlap_membership. Qed.
+
+(* so overlapping calls with the SAME name can only leave a connection in that keyspace *)
+Theorem C20_overlap_same_name : forall k0 ls s c n k,
+  hrun (init k0) ls = Some s -> (forall k', In k' (told s c) -> k' = k) -> acked s c = Some n -> n = canon k.
+Proof. exact overlap_same_name. Qed.
+
+(* an honest run is a run: C20_inv, C20_after_success ... apply to it *)
+Theorem C20_honest_is_run : forall ls s s', hrun s ls = Some s' -> run s ls = Some s'.
+Proof. exact hrun_run. Qed.
+
+(* ---- the whole session: cluster worker x one pool per node -------------------------------------- *)
+
+(* C20_session.  The product system of section 6 of the model (Session::use_keyspace -> worker arm:
+   used_keyspace + snapshot + fan-out task -> per node the pool-level use of section 2 -> per
+   connection USE; metadata application creating the pools of new nodes with used_keyspace; the
+   answers aggregated by use_keyspace_result on the way back).  For every schedule: if a call is made
+   while no other call's fan-out is in flight, no call follows, and it RETURNED Ok, then in every later
+   state, for every node of the current cluster state - present before the call, added while it was in
+   progress, or added afterwards - every live connection a request can pick from that node's pool has
+   the keyspace acknowledged by the server and no USE frame in flight. *)
+Theorem C20_session : forall n0 ls1 s1 raw cs s2 ls2 s3 n c,
+  yrun (yinit n0) ls1 = Some s1 -> sfans s1 = [] ->
+  valid_name raw -> ystep s1 (YUse raw cs) = Some s2 ->
+  no_yuse ls2 = true -> yrun s2 ls2 = Some s3 ->
+  In (sfnext s1, true) (slog s3) ->
+  In n (snodes s3) -> ph (spool s3 n) c = InPool -> alive (spool s3 n) c = true ->
+  wire (spool s3 n) c = [] /\ matchesb (spool s3 n) c (raw, cs) = true.
+Proof. exact session_after_success. Qed.
+
 (* ---- the acceptor run on end-to-end traces ---------------------------------------------------------- *)
 
 (* an accepted trace satisfies the property: a request started after a use_keyspace call that
@@ -202,19 +250,6 @@ Example C20_ex_after_success :
   end = (true, true, [(true, true, [], true); (true, true, [], true); (true, true, [], true)]).
 Proof. vm_compute. reflexivity. Qed.
 
-(* why "no other use request pending" is a hypothesis (documented: "call only one use_keyspace at a
-   time"): two overlapping requests with different names, both answered Ok, leave the connection
-   in the keyspace of the FIRST although the pool's current keyspace is the second *)
-Example C20_ex_overlap :
-  match run (init None)
-          [OpenStart; OpenReady 0 true false Accept; UseKeyspace [97%N] false; UseKeyspace [98%N] false;
-           UseSend 1 0; UseSend 0 0; UseAck 0 (RSetKeyspace [98%N]); UseAck 0 (RSetKeyspace [97%N]);
-           UseDone 0 PAOk; UseDone 1 PAOk] with
-  | Some s => (cur s, acked s 0, log s, alive s 0)
-  | None => (None, None, [], false)
-  end = (Some ([98%N], false), Some [97%N], [(0, PAOk); (1, PAOk)], true).
-Proof. vm_compute. reflexivity. Qed.
-
 (* a failed use (one connection refuses) leaves a connection outside the keyspace: C20_inv's third case *)
 Example C20_ex_failed :
   match run (init None)
@@ -231,11 +266,65 @@ Example C20_ex_worker :
   ([0; 2; 3; 4], [None; None; Some (ex_ks, false); Some (ex_ks, false)], [(0, (ex_ks, false), [0; 1; 2])]).
 Proof. vm_compute. reflexivity. Qed.
 
+(* same-name overlap under an honest server: both calls Ok, the connection is in that keyspace *)
+Example C20_ex_same_name_overlap :
+  match hrun (init None)
+          [OpenStart; OpenReady 0 true false Accept; UseKeyspace ex_ks false; UseKeyspace ex_ks false;
+           UseSend 1 0; UseSend 0 0; UseAck 0 (RSetKeyspace ex_ks); UseAck 0 (RSetKeyspace ex_ks);
+           UseDone 1 PAOk; UseDone 0 PAOk] with
+  | Some s => (acked s 0, told s 0, log s)
+  | None => (None, [], [])
+  end = (Some ex_ks, [(ex_ks, false); (ex_ks, false)], [(1, PAOk); (0, PAOk)]) /\
+  hrun (init None) [OpenStart; OpenReady 0 true false Accept; UseKeyspace ex_ks false; UseSend 0 0;
+                    UseAck 0 (RSetKeyspace [120%N])] = None.
+Proof. split; vm_compute; reflexivity. Qed.
+
 Example C20_ex_accept :
   accept_trace None [EStart 0; EFrame 0 None; ECall 0 (ex_ks, false); EStart 1; EFrame 1 None; ERet 0 true;
                      EStart 2; EFrame 2 (Some ex_ks)] = true /\
   accept_trace None [ECall 0 (ex_ks, false); ERet 0 true; EStart 2; EFrame 2 None] = false.
 Proof. split; vm_compute; reflexivity. Qed.
+
+(* a session schedule meeting the hypotheses of C20_session: node 0 from the start, node 1 added before
+   the call, node 2 while it is in progress, node 3 after it returned *)
+Definition ex_y1 : list ylabel :=
+  [YPool 0 OpenStart; YPool 0 (OpenReady 0 true false Accept); YApply [0] 1;
+   YPool 1 OpenStart; YPool 1 (OpenReady 0 true false Accept)].
+Definition ex_setup (n : nat) : list ylabel :=
+  [YPool n OpenStart; YPool n (OpenReady 0 true false Accept);
+   YPool n (SetKsDone 0 (Some (RSetKeyspace ex_ks)) false Accept)].
+Definition ex_use (n : nat) : list ylabel :=
+  [YDeliver 0 n; YPool n (UseSend 0 0); YPool n (UseAck 0 (RSetKeyspace ex_ks)); YPool n (UseDone 0 PAOk)].
+Definition ex_y2 : list ylabel :=
+  YApply [0; 1] 1 :: ex_use 0 ++ ex_setup 2 ++ ex_use 1 ++ [YReturn 0 true; YApply [0; 1; 2] 1] ++ ex_setup 3 ++
+  [YPick 0 0; YPick 1 0; YPick 2 0; YPick 3 0].
+Example C20_ex_session :
+  match yrun (yinit 1) ex_y1 with
+  | Some s1 =>
+      match sfans s1, ystep s1 (YUse ex_ks false) with
+      | [], Some s2 =>
+          match yrun s2 ex_y2 with
+          | Some s3 =>
+              (no_yuse ex_y2, sfnext s1, slog s3, snodes s3,
+               map (fun n => (match ph (spool s3 n) 0 with InPool => true | _ => false end, alive (spool s3 n) 0,
+                              wire (spool s3 n) 0, matchesb (spool s3 n) 0 (ex_ks, false))) (snodes s3))
+          | None => (false, 0, [], [], [])
+          end
+      | _, _ => (false, 0, [], [], [])
+      end
+  | None => (false, 0, [], [], [])
+  end = (true, 0, [(0, true)], [0; 1; 2; 3],
+         [(true, true, [], true); (true, true, [], true); (true, true, [], true); (true, true, [], true)]).
+Proof. vm_compute. reflexivity. Qed.
+
+(* a node answering with a non-broken error makes the call return an error *)
+Example C20_ex_session_err :
+  match yrun (yinit 1) [YPool 0 OpenStart; YPool 0 (OpenReady 0 true false Accept); YUse ex_ks false; YDeliver 0 0;
+                        YPool 0 (UseSend 0 0); YPool 0 (UseAck 0 RError); YPool 0 (UseDone 0 PAErr); YReturn 0 false] with
+  | Some s => (slog s, yrun s [YReturn 0 true])
+  | None => ([], None)
+  end = ([(0, false)], None).
+Proof. vm_compute. reflexivity. Qed.
 
 (* anchors of the definitions the driver evaluates (accepting AND rejecting inputs) *)
 Example C20_ex_anchor_names :
@@ -285,6 +374,11 @@ Print Assumptions C20_fresh_pool.
 Print Assumptions C20_name_rejected.
 Print Assumptions C20_only_valid_names_sent.
 Print Assumptions C20_new_nodes.
+Print Assumptions C20_overlap_refuted.
+Print Assumptions C20_overlap_membership.
+Print Assumptions C20_overlap_same_name.
+Print Assumptions C20_honest_is_run.
+Print Assumptions C20_session.
 Print Assumptions C20_accept_sound.
 Print Assumptions C20_viol_rejected.
 Print Assumptions C20_valid_nameb.
